@@ -43,6 +43,23 @@ def gen_cases(seed_state, lo, hi, big_every, contexts):
     return out
 
 
+def gen_boundary_cases(first_id, lo, hi, contexts):
+    """worker: the deterministic operand-width-boundary family (gen.boundary_programs) lo..hi-1 as items like gen_cases';
+    program ids first_id + index; `boundary` = the family member's name"""
+    out = []
+    progs = gen.boundary_programs()
+    for j in range(lo, min(hi, len(progs))):
+        name, st, res = progs[j]
+        sz = sum(size(s) for s in st) + size(res)
+        dp = max([depth(s) for s in st] + [depth(res)])
+        for ctx in contexts:
+            src, e0 = gen.embed(ctx, st, res)
+            o = refint.run_program(gen.context_forms(ctx, st, res), fuel=2000000)
+            out.append({"prog": first_id + j, "ctx": ctx, "src": src, "e0": e0, "ref": o, "feats": ["boundary:" + name.rstrip("0123456789").rstrip("-")], "size": sz, "depth": dp,
+                        "hintpat": False, "boundary": name})
+    return out
+
+
 def ref_final(o):
     if o["kind"] == "V":
         return "V " + o["val"]
@@ -150,9 +167,14 @@ def reduce_hint_pattern(forms):
 REST_PAT = re.compile(r"\((?:def|var) \[[^\]\n]*& ")
 
 
+PARAMS_PAT = re.compile(r"\(fn\s+\[p0\s+p1\s+(?:p\d+\s+){238,}")
+
+
 def attribute(ctx, src):
     """candidate known root causes for a failing (ctx, program), most specific first"""
     sigs = []
+    if PARAMS_PAT.search(src):
+        sigs.append("params-past-temp-registers")
     if ctx in FAR_CTX and REST_PAT.search(src):
         sigs.append("destructure-rest-far-registers")
     if ctx in FAR_CTX and has_closure(src):
